@@ -69,10 +69,17 @@ class Report(object):
         counts = {}
         for o in self.obls:
             counts[o["rule"]] = counts.get(o["rule"], 0) + 1
+        below = []
         for rid, m in self.minima.items():
             if counts.get(rid, 0) < m:
-                self.broken.append("rule %s matched %d instances, frozen minimum is %d"
-                                   % (rid, counts.get(rid, 0), m))
+                below.append("rule %s matched %d instances, frozen minimum is %d" % (rid, counts.get(rid, 0), m))
+        # a rule that lost instances is `analysis broken` - unless the same run already refuted an obligation:
+        # then the refutation stands (the missing instance is usually the very construct that was removed)
+        has_viol = any(o["verdict"] == "violation" for o in self.obls)
+        if below and not (has_viol and not self.broken):
+            self.broken += below
+        elif below:
+            self.extra["below_minimum_but_violations_found"] = below
         viols, knowns = [], []
         for o in self.obls:
             if o["verdict"] == "violation":
